@@ -2,6 +2,7 @@ import Aiorpcx.C04.Dumps
 import Aiorpcx.C04.Roundtrip
 import Aiorpcx.C04.Loose
 import Aiorpcx.C04.ClassifyProofs
+import Aiorpcx.C04.Table
 import Aiorpcx.Facts.C04
 /-!
 # C04 — the JSON-RPC codec is loss-free and conforms to each version's wire format
@@ -447,7 +448,7 @@ theorem float_id_preserved :
     payloadToItem .v2 (responsePayload .v2 .null (.float (.fin 1 0)))
       = .ok (.response (.result .null), .float (.fin 1 0)) := by decide
 
-/-! ## Facts tie: the constants and call-site configuration read from /repo on this run -/
+/-! ## Facts tie: what RUNNING the codec of /repo showed on this run (tools/facts/c04.py) -/
 
 theorem facts_codes :
     Facts.C04.parseError = PARSE_ERROR ∧ Facts.C04.invalidRequest = INVALID_REQUEST
@@ -456,21 +457,66 @@ theorem facts_codes :
     ∧ Facts.C04.errorCodeUnavailable = ERROR_CODE_UNAVAILABLE
     ∧ Facts.C04.codesSameOnEveryClass = true := by decide
 
-theorem facts_allow_batches : ∀ P : Proto, Facts.C04.allowBatches P = P.allowBatches := by
+/-- which classes decode an array as a batch and emit batches (probed on both directions) -/
+theorem facts_allow_batches :
+    (∀ P : Proto, Facts.C04.allowBatches P = P.allowBatches)
+    ∧ Facts.C04.allowBatchesConsistent = true := by
+  refine ⟨?_, by decide⟩
   intro P; cases P <;> decide
 
-/-- the `json.dumps` call is configured so that `dumps_no_newline` applies to it -/
+/-- the serializer, as observed on the bytes every encoder emits, is configured so that
+`dumps_no_newline` applies: printable separators, non-ASCII escaped, nothing else deviating from
+`json.dumps(v, separators=…)` on the probe set -/
 theorem facts_dumps_cfg : Facts.C04.dumpCfg.ok :=
   ⟨by decide, by decide, by decide, by decide⟩
 
-/-- the separator `batch_message_from_parts` joins with keeps the batch a one-line JSON array -/
+/-- what `batch_message_from_parts` / `batch_message` put between the member messages keeps the
+batch a one-line JSON array, and the whole is `[` … `]` -/
 theorem facts_batch_join :
     sepOK Facts.C04.batchJoin = true ∧ Facts.C04.batchWrapIsBrackets = true := by decide
 
-theorem facts_class_wiring : Facts.C04.classWiringAsModelled = true := by decide
+/-- **decision table of the real decoders**: on a representative message of every row of the
+specification table (all 1152 object shapes, empty array, array, non-container) the real
+`message_to_item` of each protocol class produced exactly the outcome class `classify` states -/
+theorem facts_decode_table : ∀ P : Proto, Facts.C04.decodeTable P = specColumn P := by
+  intro P; cases P <;> decide +kernel
 
-/-- `_message_to_payload` turns a failed decode / failed parse into PARSE_ERROR (the two
-outcomes C04 is concerned with; the resource-limit outcomes are C05's) -/
+/-- the table has a row for every decoded payload … -/
+theorem mem_allShapes (s : Shape) (h : s.methodStr = true → s.hasMethod = true) :
+    s ∈ allShapes := by
+  obtain ⟨j, hm, ms, p, i, r, e⟩ := s
+  simp only [allShapes, List.mem_flatMap, List.mem_map]
+  refine ⟨j, by cases j <;> simp, (hm, ms), ?_, p, by cases p <;> simp [allParamsK],
+    i, by cases i <;> simp [allIdK], r, by cases r <;> simp [allResK],
+    e, by cases e <;> simp [allErrK], rfl⟩
+  cases hm <;> cases ms <;> simp_all [allMethodK]
+
+theorem topOf_mem_allTops (p : J) : topOf p ∈ allTops := by
+  unfold allTops
+  cases p with
+  | obj kvs =>
+      exact List.mem_append_left _ (List.mem_map.2 ⟨_, mem_allShapes _ (shapeOf_methodStr kvs), rfl⟩)
+  | arr xs => cases xs <;> simp [topOf]
+  | _ => simp [topOf]
+
+/-- … so, with `classification_total`: for **every** payload the model's decoder gives the
+outcome class the real decoder gave on the representative of the payload's row -/
+theorem decode_table_covers (P : Proto) (p : J) :
+    ∃ i : Nat, allTops[i]? = some (topOf p)
+      ∧ (Facts.C04.decodeTable P)[i]? = some (outCode (outClass (payloadToItem P p))) := by
+  obtain ⟨i, hi⟩ := List.getElem?_of_mem (topOf_mem_allTops p)
+  refine ⟨i, hi, ?_⟩
+  rw [facts_decode_table P, classification_total P p]
+  simp [specColumn, List.getElem?_map, hi]
+
+/-- **what the real encoders emitted** on the probe grid (requests / notifications with every
+argument kind incl. `[]`, `()`, `{}`; results; errors; a batch; under all four classes) is what the
+model's encoders produce - members compared as sets, refusals by their code -/
+theorem facts_encode_table : Facts.C04.encodeTable.all EncRow.holds = true := by decide +kernel
+
+/-- the failing outcomes of `json.loads(message.decode())` C04 is concerned with (invalid UTF-8,
+invalid JSON) were turned into PARSE_ERROR by the real decoder (the resource-limit outcomes are
+C05's) -/
 theorem facts_parse_errors (P : Proto) :
     (∃ e, messageToItem Facts.C04.payloadGuards P .unicodeError = .error (.proto e)
         ∧ e.code = PARSE_ERROR)
